@@ -436,6 +436,11 @@ def _write_longstring(file: IO[str], extended: bool, text: str, *, indent: str) 
         if split_pos == (-1 + 1):
             # Not found, just split exactly at the end.
             split_pos = LIMIT
+            # But never between a backslash and the character it escapes - an odd run of
+            # backslashes before the split means the last one starts an escape.
+            head = remaining[:split_pos]
+            if (len(head) - len(head.rstrip('\\'))) % 2:
+                split_pos -= 1
         sections.append(f'"{remaining[:split_pos]}"')
         remaining = remaining[split_pos:]
 
